@@ -725,6 +725,20 @@ pub fn designated(j: &J) -> bool {
     }
 }
 
+/// ... and the finished values the catalogue's `validate` functions reject: a different criterion than the conversions use, so that a
+/// value whose conversions all succeeded can still be rejected (numbers ending in 2, 3, 6, 7; strings containing '?'; a unit
+/// variant named `B`), anywhere inside the value.
+pub fn designated_v(j: &J) -> bool {
+    match j["r"].as_str().unwrap_or("") {
+        "num" => j["d"].as_array().and_then(|d| d.last()).and_then(|x| x.as_u64()).map(|x| (x / 2) % 2 == 1).unwrap_or(false),
+        "str" => j["s"].as_str().map(|s| s.contains('?')).unwrap_or(false),
+        "wrap" | "some" | "list" | "set" => j["e"].as_array().map(|e| e.iter().any(designated_v)).unwrap_or(false),
+        "variant" if j["e"].as_array().map(|e| e.is_empty()).unwrap_or(true) => j["name"].as_str() == Some("B"),
+        "struct" | "variant" | "map" => j["e"].as_array().map(|e| e.iter().any(|m| designated_v(&m["v"]))).unwrap_or(false),
+        _ => false,
+    }
+}
+
 pub trait Bump {
     fn bump(self) -> Self;
 }
